@@ -128,7 +128,12 @@ def roundtrip(d0, ref_shapes, label, expect_ids, dis, feats):
             except Exception as e:
                 dis.append({"clause": "ReparseRaises", "writer": name, "detail": "%s: parsing the written text raised %s: %s  [%s]" % (what, type(e).__name__, str(e)[:60], text[:300])})
                 continue
-            if len(got) != len(ref_shapes) or [type(g) for g in got] != [type(r) for r in ref_shapes]:
+            def kind_of(x):
+                # a circle that was reified under a non-uniform scale has two radii and can only be written as an ellipse:
+                # circle and ellipse are one kind of shape here, the geometry comparison below tells them apart
+                n = type(x).__name__
+                return "round" if n in ("Circle", "Ellipse") else n
+            if len(got) != len(ref_shapes) or [kind_of(g) for g in got] != [kind_of(r) for r in ref_shapes]:
                 dis.append({"clause": "ShapesChanged", "writer": name, "detail": "%s (reify=%s): %s written, read back as %s  [%s]" % (
                     what, reify, [type(r).__name__ for r in ref_shapes], [type(g).__name__ for g in got], text[:400])})
                 continue
